@@ -470,6 +470,10 @@ class _AwaitEval:
                 v = self.val(e.args[0], env, loc)
                 return env["fail"] if v == "RES" else (False if v == "NORES" else "?")
             return "?"
+        if isinstance(e, ast.NamedExpr) and isinstance(e.target, ast.Name):
+            v = self.val(e.value, env, loc)
+            loc[e.target.id] = v            # `(result := ...)` binds the local where it is evaluated
+            return v
         if isinstance(e, ast.IfExp):
             t = self.val(e.test, env, loc)
             if t in (True, False) or isinstance(t, int):
@@ -535,6 +539,7 @@ class _AwaitEval:
                                 loc_[t.id] = self.val(v, env, loc_) if v is not None else "?"
                 labs = None
                 if node.kind == "test":
+                    loc_ = dict(loc_)
                     v = self.val(node.ast, env, loc_)
                     if v == "NORES":
                         v = True        # the marker object is truthy
@@ -802,4 +807,7 @@ SILENT = [
            more=[(D, "            stopIteration = True\n            callbackValue = e.value\n", "            callbackValue = e.value\n            break\n"),
                  (D, "        if stopIteration:\n            # Call the callback outside of the exception handler to avoid inappropriate/confusing\n            # \"During handling of the above exception, another exception occurred:\" if the callback\n            # itself throws an exception.\n            status.deferred.callback(callbackValue)\n            return\n\n", ""),
                  (D, "            waiting[0] = True\n            waiting[1] = None\n\n\ndef _addCancelCallbackToDeferred(", "            waiting[0] = True\n            waiting[1] = None\n\n    status.deferred.callback(callbackValue)\n\n\ndef _addCancelCallbackToDeferred(")]),
+    Silent("await-polls-in-the-loop-condition", D,
+           "        while True:\n            if self.paused:\n                # If we're paused, we have no result to give\n                yield self\n                continue\n\n            result = getattr(self, \"result\", _NO_RESULT)\n            if result is _NO_RESULT:\n                yield self\n                continue\n\n            if isinstance(result, Failure):\n                # Clear the failure on debugInfo so it doesn't raise \"unhandled\n                # exception\"\n                assert self._debugInfo is not None\n                self._debugInfo.failResult = None\n                result.raiseException()\n            else:\n                return result  # type: ignore[return-value]\n",
+           "        while self.paused or (outcome := getattr(self, \"result\", _NO_RESULT)) is _NO_RESULT:\n            yield self\n        if isinstance(outcome, Failure):\n            assert self._debugInfo is not None\n            self._debugInfo.failResult = None\n            outcome.raiseException()\n        return outcome\n"),
 ]
